@@ -9,8 +9,9 @@ open Emboss.Generated
 
 /-- Side conditions on a type definition under which the iff is proved ("resolved,
 type-correct"): structures are byte- or bit-addressed; the size of a scalar field has finite
-bounds (C05 guarantees it for every realisable module; an unbounded one makes the Python
-raise ValueError — open finding); `is_signed`, when present, is a literal. -/
+bounds (C05 guarantees it for every realisable module; an unbounded one is rejected by the
+64-bit gate in the same pass); `is_signed`, when present, is a constant boolean (established by
+the attribute pass). -/
 structure TypeWF (t : TypeInfo) : Prop where
   unit : ∀ fs, t.kind = .structure fs → (t.unit = .bit ∨ t.unit = .byte)
   bounds : ∀ f ∈ t.fields, f.isVirtual = false → f.ty.isAtomic = true →
